@@ -59,6 +59,9 @@ pub fn generate(ctx: &mut Ctx) {
         let pool = build_pool(compressed);
         let mut all_frames: Vec<Vec<u8>> = pool.by_type.iter().map(|(_, f)| f.clone()).collect();
         all_frames.push(vec![size_byte(compressed, 4), 3, 0, 0]);
+        let big_frames = big_frames(compressed);
+        *ctx.distribution.entry(format!("c06.big-frames.{}", mode_tok(compressed))).or_insert(0) = big_frames.len() as u64;
+        all_frames.extend(big_frames.iter().cloned());
         for fl in [Flavour::Blocking, Flavour::Tokio] {
             // every kind, with every fixed acceptance size 1..=9 and a few larger
             for f in &all_frames {
